@@ -145,9 +145,14 @@ def _load_extra():
 _load_extra()
 
 # W-PIPE halves of properties whose other half lives in another world's registry file
+def MANY(prop):
+    return dict(pipe('many-targets', 16, 300, prop=prop, faults=False, events=3, many_targets=(250, 320), max_total=2, max_pkgs=1, workers=8, max_steps=60000,
+                     feedback=False, waiters=False, outcome=dict(success=30, failure=1, invalid=1),
+                     mix=dict(run=1, rerun_executing=0, add_target=0, run_all=2, run_empty=0)), chunk=4)
+
+
 _EXTRA_BATCHES = {
     # second sentence of C02: real workers, stored results at quiescence vs a from-scratch evaluation
-    'C02': [dict(name='real-workers-end-state', world='worlds.realw', cfg=dict(prop='C02', faults=False), runs=dict(quick=160, thorough=8000), chunk=4)],
     # variant (B): engine on disk, real scanner, real module reloading at every software update
     'C09': [dict(name='disk-reload-history', world='worlds.disk', cfg=dict(prop='C09', faults=False, events=8, max_total=8, max_pkgs=4), runs=dict(quick=300, thorough=15000))],
     'C15': [dict(name='disk-reload-history', world='worlds.disk', cfg=dict(prop='C15', faults=False, events=8, graph_edits=False), runs=dict(quick=300, thorough=15000))],
@@ -160,7 +165,7 @@ _EXTRA_BATCHES = {
                  runs=dict(quick=300, thorough=15000))],
     # the real waiter protocol (wait_for_todo / wait_for_doing / wait_for_crew, their pollers and re-arming callbacks) as
     # submissions use it, with run requests landing between a poll and its callback
-    'C04': [dict(name='submission-waiters', world='worlds.fsm',
+    'C04': [MANY('C04'), dict(name='submission-waiters', world='worlds.fsm',
                  cfg=dict(prop='C04', faults=False, events=14, workers=[1, 2, 3],
                           mix=dict(run=6, rerun_executing=0, add_target=0, run_all=2, run_empty=0, update=0, submit=6, reset=0, bad_trigger=0),
                           priorities=['todo_empty', 'todo_empty', 'doing_empty', 'doing_empty', 'crew_idle'], proc_delays=[0.0, 0.1, 1.0], git_fail=(1, 40),
@@ -169,6 +174,10 @@ _EXTRA_BATCHES = {
     # the real worker (worker.cluster.execute, worker.Context.run) reporting runs that fail inside the algorithm
     'C05': [dict(name='real-workers-failing-runs', world='worlds.realw', cfg=dict(prop='C05', faults=False, failing=True, events=5),
                  runs=dict(quick=160, thorough=8000), chunk=4, require=['handed', 'real_outcome_reported_right'])],
+    'C02': [dict(name='real-workers-end-state', world='worlds.realw', cfg=dict(prop='C02', faults=False), runs=dict(quick=160, thorough=8000), chunk=4),
+            MANY('C02')],
+    # a survey-sized target list: one release of one job carries hundreds of targets
+    'C03': [MANY('C03')],
     'C18': [pipe('pipe-history', 700, 30000, prop='C18', faults=False, events=12, outcome=dict(success=4, failure=2, invalid=2)),
             pipe('pipe-history-faults', 400, 20000, prop='C18', faults=True, net=True, events=12, mix=MIX_UPDATE, record_on_run=True)],
     'C20': [dict(name='pipe-timers', world='worlds.timer', cfg=dict(prop='C20', faults=False), runs=dict(quick=500, thorough=20000))],
